@@ -618,6 +618,15 @@ func (c C16) Run(t *tape.Tape, opt core.RunOpt) (res core.Result) {
 						for n > 0 && (!strings.HasSuffix(sp.Fields[n-1].Type.String(), "!") || sp.Fields[n-1].Default != "") && !strings.Contains(allLits, sp.Fields[n-1].Name+":") {
 							n--
 						}
+						if len(sp.DirUses) > 0 && t.Bool(1, 2) {
+							// the directive uses move instead (an extension with an
+							// empty body), the fields stay where they are
+							base := *sp
+							base.DirUses = nil
+							texts[i], extra[i] = base.SDL(), "extend input "+sp.Name+" "+strings.Join(sp.DirUses, " ")+" {\n}\n"
+							optMoved[sp.Name] = true
+							continue
+						}
 						if n == len(sp.Fields) || n == 0 {
 							continue
 						}
